@@ -671,6 +671,12 @@ class Explorer:
                                 lambda g, el=el: g.generic("GENERAL", el), el))
                         plist.append(("slot-literal",
                                       lambda g: g.generic("NUMBER", "5"), "5"))
+                        plist.append(("slot-character",
+                                      lambda g: g.generic("CHARACTER", "+"),
+                                      "\\+"))
+                        plist.append(("slot-varset",
+                                      lambda g: g.generic("VARIABLE_SET", "x"),
+                                      "→x"))
                     for item in plist:
                         label, mk, sp = item[0], item[1], item[2]
                         r = self.generate(shape, h, label, mk)
